@@ -1274,5 +1274,49 @@ func TestVerifC15Gov(t *testing.T) {
 		}
 		g.emit("multi", g.request(msgs...))
 	}
+	// 5. guardian-set sizes at the bounds that matter on either side: the admin server's limit (19 today, common.MaxGuardianCount)
+	//    and the payload's ONE-BYTE guardian count (255 / 256 / 257 and the next wrap-around 511 / 512 / 513, 1024): whatever limit the
+	//    node applies, a request it accepts must come out with the count the operator asked for. Own PRNG, appended last.
+	g.sizeFamily(seed)
 	t.Logf("c15 harness: %d cases %v", g.n, g.dist)
+}
+
+func (g *c15gen) sizeFamily(seed int64) {
+	saved := g.r
+	g.r = rand.New(rand.NewSource(seed ^ 0x51ed270b))
+	defer func() { g.r = saved }()
+	g.newServices()
+	sizes := []int{18, 19, 20, 21, 32, 127, 128, 129, 254, 255, 256, 257, 300, 511, 512, 513, 1024}
+	for _, n := range sizes {
+		_, m := g.message(2, false)
+		m.TargetChainId = 0
+		gs := make([]*nodev1.GuardianSetUpgrade_Guardian, n)
+		seen := map[string]bool{}
+		for i := range gs {
+			k := g.validKey()
+			for seen[strings.ToLower(strings.TrimPrefix(strings.TrimPrefix(k, "0x"), "0X"))] {
+				k = g.validKey()
+			}
+			seen[strings.ToLower(strings.TrimPrefix(strings.TrimPrefix(k, "0x"), "0X"))] = true
+			gs[i] = &nodev1.GuardianSetUpgrade_Guardian{Pubkey: k, Name: fmt.Sprintf("g%d", i)}
+		}
+		m.Payload.(*nodev1.GovernanceMessage_GuardianSet).GuardianSet.Guardians = gs
+		req := g.request(m)
+		req.CurrentSetIndex = uint32(g.r.Intn(1000))
+		g.emit("gsz", req)
+	}
+	// the same sizes once more with a repeated key at the far end (the duplicate check has to reach it) - rejected whatever the limit
+	for _, n := range []int{19, 20, 255, 256, 257} {
+		_, m := g.message(2, false)
+		m.TargetChainId = 0
+		gs := make([]*nodev1.GuardianSetUpgrade_Guardian, n)
+		for i := range gs {
+			gs[i] = &nodev1.GuardianSetUpgrade_Guardian{Pubkey: g.validKey(), Name: fmt.Sprintf("g%d", i)}
+		}
+		gs[n-1].Pubkey = gs[0].Pubkey
+		m.Payload.(*nodev1.GovernanceMessage_GuardianSet).GuardianSet.Guardians = gs
+		req := g.request(m)
+		req.CurrentSetIndex = 3
+		g.emit("gszd", req)
+	}
 }
